@@ -431,7 +431,7 @@ func c15CmapSelection(r *run.Run) {
 	runes := []rune{'A', 0xC4, 0x1F600, 'x', 0x10041} // A, A-umlaut (Mac Roman 0x80), an astral character, an unmapped one, an unmapped astral one that equals 'A' in its low 16 bits
 	macByte := map[rune]uint16{'A': 0x41, 0xC4: 0x80}
 	r.Explore(explore.Config{Name: "C15.cmap-selection"},
-		"fonts whose cmap table holds every subset of the keys (3,10) (0,4) (3,1) (0,3) (1,0), each subtable with its own target glyph (formats 12 / 4; the Macintosh subtable in format 4 or 6 keyed by Mac Roman bytes), laid out on all strings of length <= 2 over {A, U+00C4, U+1F600, unmapped x, unmapped U+10041}: each character must get the glyph of the preferred subtable present, or glyph 0",
+		"fonts whose cmap table holds every subset of the keys (3,10) (0,4) (3,1) (0,3) (1,0), each subtable with its own target glyph (formats 12, with a zero or a non-zero language field, / 4; the Macintosh subtable in format 4 or 6 keyed by Mac Roman bytes), laid out on all strings of length <= 2 over {A, U+00C4, U+1F600, unmapped x, unmapped U+10041}: each character must get the glyph of the preferred subtable present, or glyph 0",
 		func(c *explore.Ctx) {
 			f, _ := FontFromChoices(gen.FontOpts{NoMeta: true, NoLayout: true}, gen.KindGlyf, 2, 0, 0, 1)
 			t := cmap.Table{}
@@ -440,17 +440,21 @@ func c15CmapSelection(r *run.Run) {
 			macFmt := 0
 			for i := range keys {
 				k := &keys[i]
-				n := 2
-				if k.k.PlatformID == 1 {
-					n = 3
-				}
+				n := 3 // absent; present; present with a language field (formats 12: a non-zero field that means nothing outside the Macintosh platform)
 				ch := c.Choose(n, fmt.Sprintf("key %v", k.k))
 				if ch == 0 {
 					continue
 				}
+				if ch == 2 && k.k.PlatformID != 1 && !k.full {
+					c.Skip("one variant only")
+				}
 				switch {
 				case k.full:
-					t[k.k] = cmap.Format12{'A': glyph.ID(k.glyph), 0xC4: glyph.ID(k.glyph), 0x1F600: glyph.ID(k.glyph)}.Encode(0)
+					lang := uint16(0)
+					if ch == 2 {
+						lang = 0x0409
+					}
+					t[k.k] = cmap.Format12{'A': glyph.ID(k.glyph), 0xC4: glyph.ID(k.glyph), 0x1F600: glyph.ID(k.glyph)}.Encode(lang)
 				case k.k.PlatformID == 1 && ch == 1:
 					t[k.k] = refcmap.Assemble4([]refcmap.Seg4{{Start: 0x41, End: 0x41, Delta: k.glyph - 0x41}, {Start: 0x80, End: 0x80, Delta: k.glyph - 0x80}, {Start: 0xFFFF, End: 0xFFFF, Delta: 1}}, 0)
 					macFmt = 4
@@ -477,7 +481,13 @@ func c15CmapSelection(r *run.Run) {
 			if len(t) > 1 {
 				c.Nontrivial()
 			}
-			f.CMapTable = t
+			// the table as a reader finds it in a file
+			if dec, err := cmap.Decode(t.Encode()); err != nil {
+				c.Fail("C15.cmap", "decode", "the character map table cannot be decoded: %v (cmap %v)", err, desc)
+				return
+			} else {
+				f.CMapTable = dec
+			}
 			want := func(ru rune) glyph.ID {
 				switch {
 				case winner.full:
